@@ -47,24 +47,72 @@
      * C17_kd_build_hypotheses_satisfiable
                                  sorting is an admissible oracle; a concrete data set with duplicates and points
                                  on the splitting planes, its tree and a query result.
+   PROVED, extension (axiom-free; over ANY ordered field given as a record of operations C17Field.fops with the laws
+   C17Field.olaws as a hypothesis; points = lists over the field, so every finite double is covered by the instance Qc;
+   sqrt is a field of the record and enters only through the hypothesis sqrt_ok x : 0 < x -> sqrt x * sqrt x = x):
+     * C17_proj_cell_lower_bound  LCTree / KHCTree::squaredDistanceLowerBound (walk up the parents, v = distanceFromPlane,
+                                 negated for right children, maximum with 0, squared) <= d2(p, q) for every point p of the
+                                 cell, for every node type whose funct is 1-Lipschitz w.r.t. the tree's metric d2;
+     * C17_lc_funct_lipschitz    LCTree::funct = inner_prod(m_normal, .) with norm_sqr(m_normal) <= 1 is 1-Lipschitz for the
+                                 Euclidean distance (Cauchy-Schwarz proved for lists over the field);
+     * C17_khc_funct_lipschitz   KHCTree::funct = (k(pos,.) - k(neg,.)) * m_normalInvNorm is 1-Lipschitz for the feature-
+                                 space distance k(x,x) - 2k(x,y) + k(y,y) of ANY kernel k with non-negative squared feature
+                                 distances (KPos) and Cauchy-Schwarz for feature differences (KCS) - hypotheses on k;
+     * C17_linear_kernel_psd     the linear kernel satisfies KPos and KCS (the polynomial kernel: NOT proved, see below);
+     * C17_gen_next_invariant, C17_proj_query_k_smallest_dataset
+                                 IterativeNNQuery over an arbitrary ordered carrier and ANY BinaryTree whose bound is sound
+                                 (C17_next_invariant / C17_query_k_smallest_dataset generalised: the proof uses nothing but
+                                 "node bound <= distance of every point below, leaf key = distance of its points");
+     * C17_lc_query_k_nearest, C17_khc_query_k_nearest
+                                 every LC / KHC tree that passes the executable checks (pwf_treeb: left funct <= threshold
+                                 <= right funct, a leaf holds copies of one point; unit normal) returns the k nearest
+                                 neighbours w.r.t. the Euclidean / kernel-induced metric, distances true and sorted;
+     * C17_proj_split_list_spec, C17_proj_split_all_equal_is_leaf, C17_proj_build_depth_limit_unreached
+                                 BinaryTree::splitList / partitionEqually on keys of the field; all keys equal => the
+                                 node stays a leaf (repair bfc526b8), the recursion never uses up its depth budget;
+     * C17_lc_build_wellformed, C17_khc_build_wellformed, C17_lc_build_then_query_correct, C17_khc_build_then_query_correct
+                                 LCTree / KHCTree::buildTree (model C17ProjBuild.pbuild; oracles: std::nth_element result with
+                                 the median property, choice of the two anchors) yields a well-formed tree whose leaves
+                                 partition 0..n-1, duplicates / collinear points / points on the cut included; end to end
+                                 with the query: the k nearest neighbours;  KHC: any SYMMETRIC kernel with KPos / KCS;
+     * C17_lc_coded_choice_admissible, C17_khc_coded_choice_admissible
+                                 the anchors chosen AS CODED (sample of CuttingAccuracy points, calculateNormal's double
+                                 loop with the first strict maximum, fallback of repair c6ff0316 for a degenerate sample)
+                                 satisfy the hypothesis on the choice (two points of the cell, different if possible);
+     * C17_proj_sort_oracle_admissible, C17_proj_nth_check_sound, C17_qc_ordered_field, C17_lc_hypotheses_satisfiable,
+       C17_khc_hypotheses_satisfiable, C17_lc_build_hypotheses_satisfiable   satisfiability of all hypotheses (Qc).
    NOT PROVED, compared / monitored only:
      * the tie between the models and the C++ is a correspondence run, not a proof:
-       - construction: the harness records what the real std::nth_element left behind at every node; the
+       - kd construction: the harness records what the real std::nth_element left behind at every node; the
          extracted kd_build gets these arrangements as its oracle (each checked with median_okb at the model's
          median position) and must reproduce the real tree: cut dimension, threshold, left/right index SET of
          every node; every real kd-tree is also checked with the extracted wf_treeb and by an independent
          well-formedness monitor (violations are reported under the key tree:build-wf);
-       - query: same tree, same queries, all n neighbours, queue size and radius after every call;
+       - kd query: same tree, same queries, all n neighbours, queue size and radius after every call;
+       - projection trees (LC, KHC with the linear and the polynomial kernel), every quick run: the extracted model runs in
+         exact rational arithmetic (Qc) on the real tree (thresholds, normals, anchors, m_normalInvNorm dumped as %.17g) and
+         must reproduce squaredDistanceLowerBound of every node and distanceFromPlane of every inner node (1e-12), every
+         result of next() / getNeighbors (exact), queue size and radius when no comparison of the search is within 1e-9 of
+         a tie; the real tree must pass pwf_treeb (a point may sit <= 1e-12 on the wrong side when its projection ties
+         with the threshold: counted as trees_wf_up_to_rounding) and have unit normals (1e-12); construction: lc_build /
+         khc_build with the anchors AS CODED evaluated on the recorded order of the node's points and the recorded
+         std::nth_element results must reproduce every node of the real tree (index sets and anchors exact, normals /
+         thresholds / keys 1e-12) unless rounding broke or made a tie between projections of different points
+         (build_float_ties, counted, the real tree is then only checked by pwf_treeb and the search monitor);
+     * floating point: the theorems are about exact arithmetic; for the doubles of a real tree the unit-norm hypothesis holds
+       up to 1e-16 only (nodes_norm_gt_1 in the evidence), the approximate sqrt of the driver enters the construction tie;
+     * the polynomial kernel (khc2 stream) is not proved to satisfy KPos / KCS: its trees are covered by the correspondence
+       run and the exhaustive-search monitor, the theorems apply to it under these two hypotheses;
      * std::nth_element itself and the two std::partition calls (modelled as stable partitions) are not
-       verified; thresholds: the model halves with Z division, exact on the doubled integer coordinates the
+       verified; kd thresholds: the model halves with Z division, exact on the doubled integer coordinates the
        correspondence run uses, the C++ computes 0.5*(max+min) in double; the depth limit 2^32-1 and
-       TreeConstruction with maxDepth / bucket size > 1 are outside the construction model;
-     * LC-trees, kernel (KHC) trees, bucket sizes > 1, NearestNeighborModel predictions: exhaustive-
-       search monitor only. *)
+       TreeConstruction with maxDepth / bucket size > 1 are outside the construction models;
+     * bucket sizes > 1, NearestNeighborModel predictions: exhaustive-search monitor only. *)
 From Coq Require Import List ZArith QArith Permutation.
 From SharkV Require Import C17Model C17Proofs C17Build C17BuildProofs C17BuildIndepProofs.
 From SharkV Require Import C17Field C17Gen C17Proj C17ProjProofs C17ProjExamples.
 From SharkV Require Import C17ProjBuild C17ProjBuildProofs C17ProjChooseProofs C17ProjBuildExamples.
+From SharkV Require Import C17Vote C17VoteProofs.
 From SharkV Require C17GenProofs.
 Import ListNotations.
 Open Scope Z_scope.
@@ -224,7 +272,7 @@ Print Assumptions C17_khc_funct_lipschitz.
 Theorem C17_linear_kernel_psd :
   forall (A : Type) (F : fops A), olaws F -> forall dim : nat,
   KPos A F (lin_k A F) (dimdom A dim) /\ KCS A F (lin_k A F) (dimdom A dim).
-Proof. intros A F L dim. split; [exact (lin_KPos A F L dim) | exact (lin_KCS A F L dim)]. Qed.
+Proof. exact lin_kernel_psd. Qed.
 Print Assumptions C17_linear_kernel_psd.
 
 (* one call of IterativeNNQuery::next() over an arbitrary ordered carrier: C17_next_invariant generalised; the only
@@ -481,3 +529,71 @@ Theorem C17_lc_build_hypotheses_satisfiable :
     [(1#1, 1%nat); (1#1, 2%nat); (1#1, 5%nat); (4#1, 4%nat)]%Q.
 Proof. exact lc_build_example. Qed.
 Print Assumptions C17_lc_build_hypotheses_satisfiable.
+
+(* ======================================================================================================== *)
+(* Extension: NearestNeighborModel (definitions: C17Vote.v).  nbrs = the (distance, label) pairs getNeighbors returned;
+   tiny / huge stand for 1e-100 / 1e100 of the zero-distance rule. *)
+
+(* the prediction - class scores, decision (first maximal score; a single score is thresholded at 0), regression mean - is a
+   function of the MULTISET of (distance, label) pairs: invariant under every rearrangement of the neighbour list *)
+Theorem C17_vote_rearrangement_invariant :
+  forall (A : Type) (F : fops A), olaws F -> forall (tiny huge : A) (u : bool),
+  (forall (nc : nat) (l l' : list (A * nat)), Permutation l l' ->
+     nn_scores A F tiny huge u nc l = nn_scores A F tiny huge u nc l' /\
+     nn_classify A F tiny huge u nc l = nn_classify A F tiny huge u nc l') /\
+  (forall (dl : nat) (l l' : list (A * list A)), Permutation l l' ->
+     nn_regress A F tiny huge u dl l = nn_regress A F tiny huge u dl l').
+Proof. exact vote_rearrangement_invariant. Qed.
+Print Assumptions C17_vote_rearrangement_invariant.
+
+(* two sets of k nearest neighbours (KNear: k distinct indices, every point left out at least as far as every point
+   reported) coincide when there is no tie at the k-th distance (StrictGap) *)
+Theorem C17_vote_knear_unique :
+  forall (A : Type) (F : fops A) (dd : nat -> A) (n : nat) (S1 S2 : list nat),
+  KNear A F dd n S1 -> KNear A F dd n S2 -> length S1 = length S2 -> StrictGap A F dd n S1 -> Permutation S1 S2.
+Proof. exact knear_unique. Qed.
+Print Assumptions C17_vote_knear_unique.
+
+(* hence identical predictions with either search back-end - whenever there is no tie at the k-th distance *)
+Theorem C17_vote_backends_agree :
+  forall (A : Type) (F : fops A), olaws F -> forall (tiny huge : A) (dd : nat -> A) (n : nat) (S1 S2 : list nat) (u : bool),
+  KNear A F dd n S1 -> KNear A F dd n S2 -> length S1 = length S2 -> StrictGap A F dd n S1 ->
+  (forall (lab : nat -> nat) (nc : nat),
+     nn_classify A F tiny huge u nc (map (fun i => (dd i, lab i)) S1) = nn_classify A F tiny huge u nc (map (fun i => (dd i, lab i)) S2) /\
+     nn_scores A F tiny huge u nc (map (fun i => (dd i, lab i)) S1) = nn_scores A F tiny huge u nc (map (fun i => (dd i, lab i)) S2)) /\
+  (forall (lab : nat -> list A) (dl : nat),
+     nn_regress A F tiny huge u dl (map (fun i => (dd i, lab i)) S1) = nn_regress A F tiny huge u dl (map (fun i => (dd i, lab i)) S2)).
+Proof. exact backends_agree. Qed.
+Print Assumptions C17_vote_backends_agree.
+
+(* REFUTED without that hypothesis: with a tie at the k-th distance two back-ends may both return k nearest neighbours with
+   the SAME distances and the model still predicts differently (points -1 and +1 with labels 0 and 1, query 0, k = 1:
+   observed in the C++: TreeNearestNeighbors reports index 0, SimpleNearestNeighbors index 1) *)
+Theorem C17_vote_backend_tie_refuted :
+  let dd := fun _ : nat => q1 in
+  let lab := fun i : nat => i in
+  let rlab := fun i : nat => [Qcanon.Q2Qc (inject_Z (Z.of_nat i))] in
+  KNear Qcanon.Qc vF dd 2 [0%nat] /\ KNear Qcanon.Qc vF dd 2 [1%nat] /\
+  map dd [0%nat] = map dd [1%nat] /\
+  nn_classify Qcanon.Qc vF (Qcanon.Q2Qc 0) (Qcanon.Q2Qc 0) true 2 (map (fun i => (dd i, lab i)) [0%nat]) = 0%nat /\
+  nn_classify Qcanon.Qc vF (Qcanon.Q2Qc 0) (Qcanon.Q2Qc 0) true 2 (map (fun i => (dd i, lab i)) [1%nat]) = 1%nat /\
+  map (@Qcanon.this) (nn_regress Qcanon.Qc vF (Qcanon.Q2Qc 0) (Qcanon.Q2Qc 0) true 1 (map (fun i => (dd i, rlab i)) [0%nat])) = [0#1]%Q /\
+  map (@Qcanon.this) (nn_regress Qcanon.Qc vF (Qcanon.Q2Qc 0) (Qcanon.Q2Qc 0) true 1 (map (fun i => (dd i, rlab i)) [1%nat])) = [1#1]%Q.
+Proof. exact backend_tie_witness. Qed.
+Print Assumptions C17_vote_backend_tie_refuted.
+
+(* the rules as coded on concrete neighbour lists: uniform and 1/distance votes, zero-distance rule (weight `huge`), tie
+   between classes -> the smaller class index, a data set with ONE class -> Classifier thresholds the single score and
+   reports class 1 *)
+Theorem C17_vote_rules_example :
+  let tiny := Qcanon.Q2Qc (1 # 1000) in let huge := Qcanon.Q2Qc 1000 in
+  let nb := [(Qcanon.Q2Qc 2, 1%nat); (Qcanon.Q2Qc 4, 0%nat); (Qcanon.Q2Qc 4, 1%nat)] in
+  map (@Qcanon.this) (nn_scores Qcanon.Qc vF tiny huge true 3 nb) = [1#3; 2#3; 0#1]%Q /\
+  nn_classify Qcanon.Qc vF tiny huge true 3 nb = 1%nat /\
+  map (@Qcanon.this) (nn_scores Qcanon.Qc vF tiny huge false 3 nb) = [1#4; 3#4; 0#1]%Q /\
+  map (@Qcanon.this) (nn_scores Qcanon.Qc vF tiny huge false 3 ((Qcanon.Q2Qc 0, 2%nat) :: nb)) = [1#4004; 3#4004; 1000#1001]%Q /\
+  nn_classify Qcanon.Qc vF tiny huge false 3 ((Qcanon.Q2Qc 0, 2%nat) :: nb) = 2%nat /\
+  nn_classify Qcanon.Qc vF tiny huge true 2 [(Qcanon.Q2Qc 1, 0%nat); (Qcanon.Q2Qc 1, 1%nat)] = 0%nat /\
+  nn_classify Qcanon.Qc vF tiny huge true 1 [(Qcanon.Q2Qc 1, 0%nat)] = 1%nat.
+Proof. exact vote_example. Qed.
+Print Assumptions C17_vote_rules_example.
